@@ -65,64 +65,114 @@ theorem exists_unret : ∀ (l : List Caller), 1 ≤ sumBy fUnret l → ∃ (j : 
         exact ⟨j + 1, c', by simp [h1], h2⟩
       · exact ⟨0, c, by simp, hc⟩
 
+theorem exists_pos (f : Caller → Nat) : ∀ (l : List Caller), 1 ≤ sumBy f l → ∃ (j : Nat) (c : Caller), l[j]? = some c ∧ 1 ≤ f c
+  | [], h => by simp [sumBy] at h
+  | c :: r, h => by
+      by_cases hc : 1 ≤ f c
+      · exact ⟨0, c, by simp, hc⟩
+      · have : f c = 0 := by omega
+        simp [sumBy, this] at h
+        obtain ⟨j, c', h1, h2⟩ := exists_pos f r h
+        exact ⟨j + 1, c', by simp [h1], h2⟩
+
+/-- A caller inside `Suspend`'s critical section (close signal to send, DA1 query to write, or waiting
+in `WaitClose`) can always move, or a label of the parser / the terminal is enabled. -/
+theorem critical_moves (s : SSys) (h : Inv s) (hq : s.quiescent = true) (j : Nat) (c : Caller) (hj : s.callers[j]? = some c)
+    (hc : c.pc = .signalClose ∨ c.pc = .writeDA1 ∨ c.pc = .waitClosed) : False := by
+  have q1 := quiescent_sched s hq .parser rfl
+  have q4 := quiescent_sched s hq .termReply rfl
+  have hm : c ∈ s.callers := List.mem_of_getElem? hj
+  have m5 := sumBy_pos_of_mem fSC s.callers c hm
+  have m7 := sumBy_pos_of_mem fWC s.callers c hm
+  have qj := quiescent_sched s hq (.caller j) rfl
+  have qd := quiescent_sched s hq (.drain j) rfl
+  obtain ⟨h1, h2, h3, h4, h5, h6, h7, h8, h9, h10, h11, h12, h13, h14⟩ := h
+  obtain ⟨qcap, queueLen, consumer, inbuf, ppc, seqs, seqsClosed, closeSig, closedSig, ipc, killSig, winchSig, olds, callers, closedFlag,
+        suspendedFlag, suspLock, quitCloses, da1Pending, da1First, resumeClears⟩ := s
+  dsimp only at *
+  subst h1
+  obtain ⟨pc, k⟩ := c
+  simp only [snext, hj] at qj qd
+  simp only at hc
+  rcases hc with rfl | rfl | rfl
+  · -- signalClose blocked: somebody else's close signal is pending — impossible
+    simp [fSC] at m5
+    have hp2 := pX_le ppc
+    by_cases hcs : closeSig = 0
+    · simp [closeStep, hcs] at qj
+    · simp only [pT] at *; omega
+  · -- writeDA1 is never blocked
+    simp [closeStep] at qj
+  · -- waitClosed blocked: no closed token, and nothing in the channel to discard
+    simp [fWC] at m7
+    have hseqs : seqs = [] := by
+      cases seqs with
+      | nil => rfl
+      | cons t r => simp at qd
+    subst hseqs
+    have hcs0 : closedSig = 0 := by
+      by_cases hcs : 0 < closedSig
+      · simp [closeStep, hcs] at qj
+      · omega
+    subst hcs0
+    cases ppc with
+    | top => simp [snext] at q1; split at q1 <;> simp at q1
+    | reading =>
+      cases inbuf with
+      | cons u r => cases u <;> simp [snext] at q1
+      | nil =>
+        simp only [pT, pX, pD, pR, emptyN, List.length_nil] at *
+        have : da1Pending > 0 := by omega
+        simp [snext, this] at q4
+    | emitting k => simp [snext] at q1
+    | emitEOF => simp [snext] at q1
+    | signalClosed => simp [snext] at q1
+    | done => simp only [pT, pD] at *; omega
+
+/-- At rest nobody holds `vx.suspendMu`. -/
+theorem rest_lock_free (s : SSys) (h : Inv s) (hq : s.quiescent = true) : s.suspLock = false := by
+  cases hl : s.suspLock with
+  | false => rfl
+  | true =>
+    exfalso
+    have hlock := h.lock
+    rw [hl] at hlock
+    simp only [b2n_true] at hlock
+    have : 1 ≤ sumBy fSC s.callers ∨ 1 ≤ sumBy fWD s.callers ∨ 1 ≤ sumBy fWC s.callers := by omega
+    rcases this with h1 | h1 | h1
+    · obtain ⟨j, c, hj, hc⟩ := exists_pos fSC s.callers h1
+      refine critical_moves s h hq j c hj (Or.inl ?_)
+      obtain ⟨pc, k⟩ := c; cases pc <;> simp [fSC] at hc ⊢
+    · obtain ⟨j, c, hj, hc⟩ := exists_pos fWD s.callers h1
+      refine critical_moves s h hq j c hj (Or.inr (Or.inl ?_))
+      obtain ⟨pc, k⟩ := c; cases pc <;> simp [fWD] at hc ⊢
+    · obtain ⟨j, c, hj, hc⟩ := exists_pos fWC s.callers h1
+      refine critical_moves s h hq j c hj (Or.inr (Or.inr ?_))
+      obtain ⟨pc, k⟩ := c; cases pc <;> simp [fWC] at hc ⊢
+
 /-- **Every caller returns.** In a state satisfying the invariant in which nothing a scheduler may
 pick is enabled, every caller of `Close`/`Suspend` has returned. -/
 theorem rest_all_returned (s : SSys) (h : Inv s) (hq : s.quiescent = true) : sumBy fUnret s.callers = 0 := by
-  have q1 := quiescent_sched s hq .parser rfl
-  have q4 := quiescent_sched s hq .termReply rfl
+  have hfree := rest_lock_free s h hq
   cases hz : sumBy fUnret s.callers with
   | zero => rfl
   | succ n =>
       exfalso
       obtain ⟨j, c, hj, hne⟩ := exists_unret s.callers (by omega)
       have hm : c ∈ s.callers := List.mem_of_getElem? hj
-      have m5 := sumBy_pos_of_mem fSC s.callers c hm
-      have m7 := sumBy_pos_of_mem fWC s.callers c hm
       have m9 := sumBy_pos_of_mem fBad s.callers c hm
       have qj := quiescent_sched s hq (.caller j) rfl
-      have qd := quiescent_sched s hq (.drain j) rfl
-      obtain ⟨h1, h2, h3, h4, h5, h6, h7, h8, h9, h10, h11, h12, h13, h14, h15⟩ := h
-      obtain ⟨qcap, queueLen, consumer, inbuf, ppc, seqs, seqsClosed, closeSig, closedSig, ipc, killSig, winchSig, olds, callers, closedFlag,
-        suspendedFlag, quitCloses, da1Pending, da1First, resumeClears⟩ := s
-      dsimp only at *
-      subst h1
-      obtain ⟨pc, k⟩ := c
-      simp only [snext, hj] at qj qd
-      cases pc <;> simp [closeStep, afterGuard, afterSignal, afterDA1, afterSuspend] at qj hne
-      · -- checkFlag
-        cases closedFlag <;> simp at qj
-      · -- checkSuspended
-        cases suspendedFlag <;> simp at qj
-      · -- signalClose blocked: somebody else's close signal is pending — impossible
-        simp [fSC] at m5
-        have hp2 := pX_le ppc
-        by_cases hcs : closeSig = 0
-        · simp [hcs] at qj
-        · simp only [pT] at *; omega
-      · -- waitClosed blocked: no closed token, and nothing in the channel to discard
-        simp [fWC] at m7
-        have hseqs : seqs = [] := by
-          cases seqs with
-          | nil => rfl
-          | cons t r => simp at qd
-        subst hseqs
-        by_cases hcs : 0 < closedSig
-        · simp [hcs] at qj
-        · have hcs0 : closedSig = 0 := by omega
-          subst hcs0
-          cases ppc with
-          | top => simp [snext] at q1; split at q1 <;> simp at q1
-          | reading =>
-            cases inbuf with
-            | cons u r => cases u <;> simp [snext] at q1
-            | nil =>
-              simp only [pT, pX, pD, pR, emptyN, List.length_nil] at *
-              have : da1Pending > 0 := by omega
-              simp [snext, this] at q4
-          | emitting k => simp [snext] at q1
-          | emitEOF => simp [snext] at q1
-          | signalClosed => simp [snext] at q1
-          | done => simp only [pT, pD] at *; omega
+      by_cases hcrit : c.pc = .signalClose ∨ c.pc = .writeDA1 ∨ c.pc = .waitClosed
+      · exact critical_moves s h hq j c hj hcrit
+      · obtain ⟨pc, k⟩ := c
+        simp only [snext, hj] at qj
+        simp only at hcrit hne
+        cases pc <;> simp [closeStep, afterGuard, afterSignal, afterDA1, afterSuspend] at qj hne hcrit
+        · -- checkFlag
+          cases hcf : s.closedFlag <;> simp [hcf] at qj
+        · -- checkSuspended: the lock is free
+          simp [hfree] at qj
+          cases hsf : s.suspendedFlag <;> simp [hsf] at qj
 
 theorem old_rest (s : SSys) (h : Inv s) (hq : s.quiescent = true) (o : Old) (ho : o ∈ s.olds) :
     o.ipc = .done ∨ postBlocked s o.ipc := by
@@ -244,9 +294,9 @@ theorem inv_sched (s s' : SSys) (l : SLabel) (hl : l.sched = true) (h : Inv s) (
   · exact inv_termReply s s' h hn
   · exact inv_parser s s' h hn
   · rename_i a
-    exact inv_input s s' a h hn (fun ha => by subst ha; simp [IAct.sched] at hl)
+    exact inv_input s s' a h hn
   · rename_i j a
-    exact inv_old s s' j a h hn (fun ha => by subst ha; simp [IAct.sched] at hl)
+    exact inv_old s s' j a h hn
   · exact inv_consume s s' h hn
   · exact inv_caller s s' _ h hn
   · exact inv_drain s s' _ h hn
